@@ -310,6 +310,23 @@ func newCache(cfg Cfg, s *Scenario) cacheAPI {
 		c, err = newTyped(cfg, func(k int) string { return fmt.Sprintf("key-%d", k) }, func(k string) int { var n int; fmt.Sscanf(k, "key-%d", &n); return n })
 	case "bytes":
 		c, err = newTyped(cfg, func(k int) []byte { return []byte(fmt.Sprintf("key-%d", k)) }, func(k []byte) int { var n int; fmt.Sscanf(string(k), "key-%d", &n); return n })
+	case "bytes-reused":
+		// a caller that builds every key in the same scratch buffer (one per goroutine): same
+		// address, same length (40 bytes), different content from call to call. The cache must
+		// hash what the slice holds at the time of the call and keep nothing that aliases it.
+		var bufs [vsched.MaxThreads + 1][]byte
+		mk := func(k int) []byte {
+			id := 0
+			if t := vsched.Cur(); t != nil {
+				id = t.ID() + 1
+			}
+			if bufs[id] == nil {
+				bufs[id] = make([]byte, 40)
+			}
+			copy(bufs[id], fmt.Sprintf("scratch-buffer-key/%021d", k))
+			return bufs[id]
+		}
+		c, err = newTyped(cfg, mk, func(b []byte) int { var n int; fmt.Sscanf(string(b), "scratch-buffer-key/%d", &n); return n })
 	case "longstring-tail", "longstring-head", "longbytes-tail":
 		// adversarial string keys: 3000 bytes long, all keys equal except for a few bytes at the
 		// very end (tail) or at the very beginning (head)
